@@ -173,7 +173,7 @@ class _SocksMachine(object):
                 self.reply_domain_name(inet_ntop(AF_INET6, addr))
 
     def _parse_domain_name_reply(self):
-        assert len(self._data) >= 8  # _parse_request_reply checks this
+        assert len(self._data) >= 7  # _parse_request_reply checks this
         addrlen = struct.unpack('B', self._data[4:5])[0]
         # may simply not have received enough data yet...
         if len(self._data) < (5 + addrlen + 2):
@@ -186,11 +186,11 @@ class _SocksMachine(object):
     @_machine.output()
     def _parse_request_reply(self):
         "waiting for a reply to our request"
-        # we need at least 6 bytes of data: 4 for the "header", such
-        # as it is, and 2 more if it's DOMAINNAME (for the size) or 4
-        # or 16 more if it's an IPv4/6 address reply. plus there's 2
-        # bytes on the end for the bound port.
-        if len(self._data) < 8:
+        # we need at least 7 bytes of data: 4 for the "header", such
+        # as it is, and 1 more if it's DOMAINNAME (for the size, which
+        # may be zero) or 4 or 16 more if it's an IPv4/6 address
+        # reply. plus there's 2 bytes on the end for the bound port.
+        if len(self._data) < 7:
             return
         msg = self._data[:4]
 
